@@ -385,6 +385,23 @@ theorem deletion_response_once (s : Sess) (c : Ctx) (u : Nat) :
       if (alGet (s.close c).1.urrs u).isSome = true ∧ (∃ r ∈ (s.close c).2.2, r.urr = u) then 1 else 0) :=
   removed_reported_once (s.close c).2.2 usarTERMR u (s.close c).1 (fun info hi => close_allRemoved s c u info hi)
 
+/-- the handler: for a live session recorded with its node, the Session Deletion Response is exactly the carrier of
+    `deletion_response_once` — the usage-report IEs are `emitUsars` of what `Sess.Close` handed back, nothing added or
+    dropped in between -/
+theorem handleDel_usars (st : State) (addr : String) (seq : BitVec 24) (x : Seid) (env : Env) (c : Ctx) (s0 : Sess)
+    (h : st.lnode.lookup x = some s0) (hm : x ∈ (st.nodes.getD s0.rnode default).sess) :
+    ∃ st1 : State, handleDel st addr seq x env c =
+      st1.sendRsp addr { kind := .delRsp, seq := seq, seid := some s0.remoteID, cause := some causeAccepted,
+                         usars := (emitUsars (s0.close c).1 (s0.close c).2.2 usarTERMR true).2 } (s0.close c).2.1 := by
+  unfold handleDel
+  simp only [h]
+  unfold State.deleteSess
+  have hl : (st.modNode s0.rnode fun n => { n with sess := n.sess.filter (· != x) }).lnode.lookup x = some s0 := h
+  simp only [hm, not_true_eq_false, if_false, hl]
+  generalize s0.close c = r
+  rcases r with ⟨s', c', rs⟩
+  exact ⟨_, rfl⟩
+
 /-- non-vacuity: two URRs, one of them shared by two PDRs; deletion removes each URR once, the reports of both come back
     flagged, and nothing is removed for an id the session does not know -/
 def exDelRep (u n : Nat) : Report := { urr := u, trig := 0, meas := [n, 0, 0, 0, 0, 0, 1, 2, 3] }
